@@ -498,6 +498,14 @@ func (x *nsExec) collect() {
 			case nsKindPH:
 				m = x.newPHMsg(n.idx, o.ph)
 				x.rememberPH(o.ph)
+				if o.ph.ProposerPubKey != nil && o.ph.ProposerPubKey.Equal(n.signer.PubKey()) {
+					h := o.ph.Header.Height
+					if d := nsSameSet(o.ph.Header.ValidatorSet, x.w.valsFor(h)); d != "" {
+						x.failf("", "proposed-sets", "node %d proposed header %s for height %d round %d whose ValidatorSet is not the set prescribed for that height: %s", n.idx, nsShort(o.ph.Header.Hash), h, o.ph.Round, d)
+					} else if d := nsSameSet(o.ph.Header.NextValidatorSet, x.w.valsFor(h+1)); d != "" {
+						x.failf("", "proposed-sets", "node %d proposed header %s for height %d round %d whose NextValidatorSet is not the set prescribed for height %d: %s", n.idx, nsShort(o.ph.Header.Hash), h, o.ph.Round, h+1, d)
+					}
+				}
 			case nsKindPrevote:
 				m = x.newVoteMsg(n.idx, o.kind, o.pv.Height, o.pv.Round, o.pv.PubKeyHash, o.pv.Proofs)
 			case nsKindPrecommit:
@@ -552,6 +560,9 @@ func (x *nsExec) deliverVotePart(n *nsNode, kind int, h uint64, r uint32, pkh, t
 	}
 	wedged, livelock := done()
 	x.count("res:" + nsKindName(kind) + ":" + res.String())
+	if res == tmconsensus.HandleVoteProofsBadPubKeyHash && pkh == string(x.w.valsFor(h).PubKeyHash) {
+		x.failf("", "c07-honest-rejected", "node %d (%s) answers BadPubKeyHash to a %s for height %d round %d that names the public key hash of the set prescribed for that height", n.idx, x.pos(n), nsKindName(kind), h, r)
+	}
 	if livelock {
 		x.failf("", "livelock", "Handle%sProofs h=%d r=%d polled its context more than %d times without returning", nsKindName(kind), h, r, nsPollLimit)
 	} else if wedged {
@@ -627,6 +638,13 @@ func (x *nsExec) deliver(pe nsPend, force bool) (done bool, progressed bool) {
 		res := n.eng.HandleProposedHeader(ctx, m.ph)
 		wedged, livelock := fin()
 		x.count("res:ph:" + res.String())
+		if res == tmconsensus.HandleProposedHeaderSignerUnrecognized {
+			for vi, pk := range x.w.pubs {
+				if pk.Equal(m.ph.ProposerPubKey) {
+					x.failf("", "c07-honest-rejected", "node %d (%s) answers SignerUnrecognized to a proposed header for height %d round %d signed by validator %d of the prescribed set", n.idx, p, m.h, m.r, vi)
+				}
+			}
+		}
 		if livelock {
 			fid := ""
 			if m.ph.Header.Height == p.VH+1 {
